@@ -64,8 +64,12 @@ func H03f() {
 	world := []int{1}
 	c := vxBuildWorld(t, world...)
 	K := append([]string(nil), vxFamily[world[0]]...)
+	lost := K[3]
 	K[3] = ""
 	all, brk := vxEmbed(K, 1, 1, 3)
+	// the replaced word re-appears after the trailing block, so that the token-similarity
+	// pre-filter stays at 1.0 while the matched span has confidence 7/8
+	all, brk = append(all, lost), append(brk, false)
 	in := vxText(all, brk)
 	r := c.Match(in)
 	vxWellFormed(c, t, in, r, world)
